@@ -17,9 +17,9 @@
                                          (the default engine checks AFTER Chains.Add: the contradicting header is stored)
      "matching header advances"          C07_checkpoint_match_advances_default(_least) / _exp, C07_no_checkpoint_left_zero_stop
      "both cursors = least checkpoint above h"   C07_cursor_spec (sorted lists of 0..n checkpoints)
-     "still converges afterwards"        C07_contained_then_converges (composition with C06 catchup_linear) *)
+     "still converges afterwards"        C07_contained_then_converges_partial (composition with C06 catchup_linear) *)
 From Coq Require Import ZArith NArith List Bool.
-From BHS Require Import Work Store Chain ChainSpec ChainAdd ChainMain SyncNode SyncDefault SyncExp SyncSpec SyncC07Proofs.
+From BHS Require Import Work Store Chain ChainSpec ChainAdd ChainMain SyncNode SyncDefault SyncExp SyncSys SyncSpec SyncC07Proofs SyncC06Proofs.
 Import ListNotations.
 Open Scope Z_scope.
 
@@ -138,6 +138,26 @@ Theorem C07_cursor_spec : forall cps, sorted cps ->
   (forall cur h, cur_ok cps cur -> (match cur with Some (_, c) => h = fst c | None => True end) -> cur_ok cps (next_e cps cur h)).
 Proof. exact cursor_spec. Qed.
 
+
+(* ---- afterwards the service still converges (composition with C06): the store after the event is the store from before the
+   forbidden header; whenever that is a prefix store of an honest chain C, a manager on it catches up with an honest peer.
+   _partial: proved for a manager started on that store (C06_catchup_linear); for the RUNNING manager with other peers around
+   convergence is C06's unproved multi-peer part (the correspondence check exercises it: families forb+honest, cpbad+honest) ---- *)
+Theorem C07_contained_then_converges_partial : forall cfg st p c o pre h post s1 rc1 fin1 gid C q cap res k hints fuel,
+  no_forb (c_forb cfg) (d_store st) ->
+  aget p (d_states st) = Some c -> d_hfm st = true -> aget p (d_objs st) = Some o -> po_conn o = true ->
+  hloop (c_forb cfg) (d_next st) (d_store st) false None pre = HDone s1 rc1 fin1 ->
+  memN (s_id h) (c_forb cfg) = true ->
+  c_disable cfg = false -> good_chain (c_forb cfg) gid C -> cps_ok gid C (c_cps cfg) -> sorted (c_cps cfg) ->
+  (1 <= cap)%nat -> (k <= length C)%nat -> Good gid C k s1 -> (length C - k + 1 <= fuel)%nat ->
+  exists st', on_headers cfg st p (pre ++ h :: post) = (st', [Ban p; Disconnect p]) /\
+  exists y1 t1 y2 t2,
+    y_cmd (y_init cfg gid (d_store st') [(q, node0 C cap res)] hints) (CConnect q) = (y1, t1) /\
+    y_cmd y1 (CRun fuel) = (y2, t2) /\ quiescent y2 = true /\
+    (exists tip t, Inv2 (d_store (y_eng y2)) tip /\ ids (chain (d_store (y_eng y2)) tip) = rev (cids gid C) /\
+                   tipB (d_store (y_eng y2)) = Some t /\ id t = last (cids gid C) gid).
+Proof. exact contained_then_converges. Qed.
+
 (* ---- the hypotheses are satisfiable: a peer (id 7) connected to a fresh node, chain 2 <- 3 <- 4 <- 5 on genesis 1 ---- *)
 Definition ex_g := ex_pl 486604799.
 Definition ex_h (i : N) := ex_sub i (i - 1) 545259519.
@@ -195,3 +215,4 @@ Print Assumptions C07_no_checkpoint_left_zero_stop.
 Print Assumptions C07_checkpoint_match_advances_exp.
 Print Assumptions C07_request_stop_exp.
 Print Assumptions C07_cursor_spec.
+Print Assumptions C07_contained_then_converges_partial.
